@@ -1,7 +1,8 @@
 INIT InitPair
 NEXT NextPair
 CONSTANTS Block = 2  HeaderCells = 16  Zero = 0  Emit = TRUE
-CONSTANT Conts <- Conts2
+CONSTANT Conts <- Conts3
+CONSTANT Paths <- Paths3
 CONSTANT EmptyHead <- MCEmptyHead
 INVARIANT EmitPair
 CHECK_DEADLOCK FALSE
